@@ -244,6 +244,7 @@ func runC11(seed uint64, n int, outDir string, replay string) {
 			}
 			defer safeStop(w.node)
 			w.qiBoost = 1
+			w.bigLogs = c%2 == 1 // every other history carries receipts with very large logs
 			X := w.node
 			for i, p := 0, 10+rc.Intn(8); i < p; i++ {
 				if _, err := w.step(); err != nil {
@@ -349,13 +350,22 @@ func runC11(seed uint64, n int, outDir string, replay string) {
 				o.Count("append-schedule:" + strings.Join(compress(sched), ","))
 				want := ledgerString(X)
 				blk, inb := st.blk, st.inbound
+				big := false
+				for _, r := range rawdb.ReadRawReceipts(db, blk.Hash(), blk.NumberU64(common.ZONE_CTX)) {
+					for _, l := range r.Logs {
+						big = big || len(l.Data) > 100000
+					}
+				}
+				if big {
+					o.Count("append-crash-tested-block-has-large-receipts")
+				}
 				if tr, _ := rawdb.ReadTrimmedUTXOs(db, blk.Hash()); len(tr) > 0 {
 					trimmedSeen = true
 					o.Count("append-crash-tested-block-trims")
-				} else if b >= nb {
+				} else if b >= nb && !big {
 					continue
 				}
-				for _, i := range pick(len(steps), b == 0) {
+				for _, i := range pick(len(steps), b == 0 || big) {
 					probe("append", image, steps, i, func(nd *zoneNode) error {
 						if nd.hc.CurrentHeader().Hash() == blk.Hash() {
 							return nil
